@@ -63,6 +63,11 @@ static int g_cur_dictmode;
 static frame_t g_frames[MAXFRAMES]; static int g_nframes; static size_t g_fin_off, g_fout_off; static int g_frame_open;
 static int g_bad;
 static void oracle(const char* msg) { printf("O %s\n", msg); g_bad = 1; }
+/* in-order flush (mt_flush_in_order): every copy into the application's output buffer is observed at the scheduler step in which it was
+ * made: the bytes must be the next bytes of the dstBuff of the job at doneJobID; count / total / last event are compared with the
+ * model's flush log after every critical section */
+static ZSTD_outBuffer* g_cur_ob; static size_t g_prev_opos;
+static unsigned long g_nflush; static unsigned long long g_flushed_total; static long g_last_fl[3] = { -1, 0, 0 };
 
 /* ---------- fault-injecting allocator (worker threads only) ---------- */
 static long g_fail_at = -1, g_wallocs = 0;
@@ -184,7 +189,7 @@ static void print_state(void) {
            off_of(m->inBuff.buffer.start), m->inBuff.filled, off_of(m->inBuff.prefix.start), m->inBuff.prefix.size,
            m->targetSectionSize, m->targetPrefixSize, m->params.fParams.checksumFlag,
            m->params.ldmParams.enableLdm == ZSTD_ps_enable, m->params.rsyncable);
-    printf(" | ser %u ", m->serial.nextJobID); print_win(m->serial.ldmWindow);
+    printf(" | ser %u ", m->serial.nextJobID); print_win(m->serial.ldmWindow); putchar(' '); print_win(m->serial.ldmState.window);
     {   POOL_ctx* f = m->factory; long qs = -1;
         if (!f->queueEmpty) { ZSTDMT_jobDescription* jd = (ZSTDMT_jobDescription*)f->queue[f->queueHead].opaque; qs = (long)(jd - m->jobs); }
         printf(" | pool %ld %zu %u %d %u %zu", qs, f->numThreadsBusy, m->bufPool->nbBuffers, m->cctxPool->availCCtx, m->seqPool->nbBuffers, m->seqPool->bufferSize != 0);
@@ -206,6 +211,28 @@ static void print_state(void) {
            owner_of(&m->cctxPool->poolMutex), owner_of(&m->seqPool->poolMutex), owner_of(&m->factory->queueMutex));
     printf(" | th");
     for (t = 0; t < nt; t++) { char kd, nm[16]; stand(t, &kd, nm); printf(" %c%s", kd, nm); }
+    printf(" | fl %lu %llu %ld:%ld:%ld", g_nflush, g_flushed_total, g_last_fl[0], g_last_fl[1], g_last_fl[2]);
+}
+
+/* called after every scheduler step, before the state is printed */
+static void flush_oracle(int tid) {
+    ZSTDMT_CCtx* m = MT();
+    if (!g_cur_ob || !m || !m->jobs) return;
+    if (g_cctx->appliedParams.nbWorkers == 0) { g_prev_opos = g_cur_ob->pos; return; }   /* the library chose single-threaded compression for this frame */
+    if (g_cur_ob->pos < g_prev_opos) { g_prev_opos = g_cur_ob->pos; return; }
+    if (g_cur_ob->pos > g_prev_opos) {
+        size_t const n = g_cur_ob->pos - g_prev_opos;
+        ZSTDMT_jobDescription* j = &m->jobs[m->doneJobID & m->jobIDMask];
+        if (tid != 0) oracle("flush order: output was handed to the application by a thread other than the application thread");
+        if (j->jobID != m->doneJobID || j->dstFlushed < n || j->dstBuff.start == NULL) oracle("flush order: output was copied although the job at doneJobID has not flushed that much");
+        else {
+            size_t const off = j->dstFlushed - n;
+            if (memcmp((const char*)g_cur_ob->dst + g_prev_opos, (const char*)j->dstBuff.start + off, n) != 0)
+                oracle("flush order: the bytes handed to the application are not the next bytes of the job at doneJobID");
+            g_last_fl[0] = (long)j->jobID; g_last_fl[1] = (long)off; g_last_fl[2] = (long)n;
+        }
+        g_nflush++; g_flushed_total += n; g_prev_opos = g_cur_ob->pos;
+    }
 }
 
 /* live input ranges: whenever the caller owns an input buffer, no unfinished posted job's src/prefix overlaps it (the property,
@@ -287,6 +314,7 @@ static void on_step(int step, int tid, int w) {
             if (g_queue_before >= 0 && m->factory->queueEmpty) cur_job[tid] = (int)m->jobs[g_queue_before].jobID; else cur_job[tid] = -1;
         }
     }
+    flush_oracle(tid);
     print_state(); putchar('\n');
     range_oracle();
     for (t = 0; t < nt && t < MAXT; t++) { stand(t, &prev_kind[t], prev_name[t]); prev_known[t] = 1; }
@@ -411,7 +439,12 @@ static size_t one_call(ZSTD_EndDirective e, size_t in_more, size_t out_more) {
     if (init_now) g_cur_dictmode = g_cctx->prefixDict.dict ? 1 : (C.dict == 2 ? 2 : 0);
     if (init_now) { if (g_frame_open) { g_outpos = g_fout_off; ob.pos = g_outpos; ob.size = g_outpos + out_more; } g_fin_off = g_inpos; g_fout_off = g_outpos; g_frame_open = 1; printf("OP init\n"); }
     printf("OP cs %d %zu %zu\n", (int)e, in_more, out_more);
+    g_prev_opos = ob.pos; g_cur_ob = &ob;
     r = ZSTD_compressStream2(g_cctx, &ob, &ib, e);
+#ifndef C11_REAL_PTHREADS
+    flush_oracle(0);      /* a copy made after the last synchronisation operation of the call */
+#endif
+    g_cur_ob = NULL;
     if (init_now) { if (g_cctx->appliedParams.nbWorkers > 0) print_initp(); else printf("INITST\n"); }
     g_inpos = ib.pos; g_outpos = ob.pos;
     if (ZSTD_isError(r)) printf("RET E %s\n", ZSTD_getErrorName(r)); else printf("RET %zu\n", r);
